@@ -193,6 +193,7 @@ def run_unit(path, scratch, mutate=None, extra_name=''):
              'name': '%s/%s/%s' % (res.name, cls, text or norm_text(desc))}
         res.obligations.append(o)
     unreach_ok = set(u.getlist('unreach'))
+    unknown = []
     for o in res.obligations:
         if o['class'] == 'reach':
             tag = o['description'][6:]
@@ -204,11 +205,12 @@ def run_unit(path, scratch, mutate=None, extra_name=''):
         elif o['status'] == 'FAILURE':
             (res.structure_failed if STRUCTURE_RX.search(o['id']) else res.failed).append(o)
         elif o['status'] != 'SUCCESS':
-            res.reason = 'obligation %s has status %s' % (o['id'], o['status'])
+            unknown.append(o)
     dead = [t for t, ok in res.reach.items() if not ok and t not in unreach_ok]
     n, ok = res.counts()
     res.seconds = time.time() - t0
-    if res.reason:
+    if unknown and not res.failed:
+        res.reason = 'obligation %s has status %s' % (unknown[0]['id'], unknown[0]['status'])
         return res
     if n == 0:
         res.reason = 'zero obligations generated'
